@@ -113,9 +113,11 @@ def gen_loc(rng, n, allow_bridging=True):
     r = rng.random()
     if r < 0.5 or n < 3:
         return gen_simple(rng, n)
-    if r < 0.75 or not allow_bridging:
-        return gen_multi(rng, n)
-    return gen_bridging(rng, n)
+    parts = gen_multi(rng, n) if r < 0.75 or not allow_bridging else gen_bridging(rng, n)
+    if len(parts) > 1 and rng.random() < 0.08:
+        # exons of different strands (what `parts[0].strand = x` and trans-spliced annotations leave behind)
+        parts = [(s, e, rng.choice([1, -1, 0, NONE])) for s, e, _st in parts]
+    return parts
 
 
 def gen_collection_loc(rng, n):
@@ -141,71 +143,174 @@ def gen_n(rng):
 
 # ------------------------------------------------------------------ implementation adapters
 
-def impl(fn, args):
+def enc_str(text):
+    return [len(text)] + [ord(c) for c in text]
+
+
+def pos_kind(pos):
+    from Bio.SeqFeature import BeforePosition, AfterPosition
+    return 1 if isinstance(pos, BeforePosition) else 2 if isinstance(pos, AfterPosition) else 0
+
+
+def enc_py_tloc(loc):
+    """ textual location (position kinds kept), the encoding of C10.Model.eTloc """
+    def part(p):
+        return [pos_kind(p.start), int(p.start), pos_kind(p.end), int(p.end), strand_from_py(p.strand)]
+    if len(loc.parts) > 1:
+        out = [1] + enc_str(loc.operator) + [len(loc.parts)]
+        for p in loc.parts:
+            out += part(p)
+        return out
+    return [0] + part(loc)
+
+
+def mk_tloc(spec):
+    """ spec: (operator, [(start kind, start, end kind, end, strand)]) -> location with position kinds """
+    from antismash.common.secmet.locations import FeatureLocation, CompoundLocation
+    from Bio.SeqFeature import BeforePosition, AfterPosition, ExactPosition
+    kinds = {0: ExactPosition, 1: BeforePosition, 2: AfterPosition}
+    fls = [FeatureLocation(kinds[sk](s), kinds[ek](e), strand_to_py(st)) for sk, s, ek, e, st in spec[1]]
+    return fls[0] if len(fls) == 1 else CompoundLocation(fls, operator=spec[0])
+
+
+def enc_tloc_spec(spec):
+    operator, parts = spec
+    if len(parts) > 1:
+        out = [1] + enc_str(operator) + [len(parts)]
+        for p in parts:
+            out += list(p)
+        return out
+    return [0] + list(parts[0])
+
+
+def mk_loc_via_text(parts):
+    """ the same location as mk_loc(parts), built the way saved results are reloaded: from its text """
+    from antismash.common.secmet.locations import location_from_string
+    return location_from_string(str(mk_loc(parts)))
+
+
+RECORDS = {}
+
+
+def record_of(m, circ):
+    """ a record of length m; Record construction is slow for long sequences, so they are kept (the Record
+        helpers driven here only read len() and the topology) """
+    key = (m, bool(circ))
+    if key not in RECORDS:
+        from antismash.common.secmet import Record
+        rec = Record("A" * m)
+        if circ:
+            rec.add_annotation("topology", "circular")
+        if len(RECORDS) > 400:
+            RECORDS.clear()
+        RECORDS[key] = rec
+    return RECORDS[key]
+
+
+def call_objs(fn, args, build=mk_loc):
+    """ runs the implementation on freshly built arguments.  Returns (encoded output, location objects of the
+        call: the arguments in order, then the returned location) - the same objects, in the same order, as
+        call_objects in C04/Model.v """
     from antismash.common.secmet import locations as L
+    objs = []
+    res = []
+
+    def arg(parts):
+        objs.append(build(parts))
+        return objs[-1]
+
+    def keep(loc):
+        res.append(loc)
+        return enc_pyloc(loc)
+
     if fn == 1:
-        a, b = args
-        return total(lambda: [int(L.locations_overlap(mk_loc(a), mk_loc(b)))])
-    if fn == 2:
-        a, b = args
-        return total(lambda: [int(L.location_contains_other(mk_loc(a), mk_loc(b)))])
-    if fn == 3:
-        a, b, w = args
-        return total(lambda: [int(L.get_distance_between_locations(mk_loc(a), mk_loc(b), w))])
-    if fn == 4:
-        (a,) = args
-        return total(lambda: [int(L.location_bridges_origin(mk_loc(a)))])
-    if fn == 5:
-        (a,) = args
+        a, b = arg(args[0]), arg(args[1])
+        out = total(lambda: [int(L.locations_overlap(a, b))])
+    elif fn == 2:
+        a, b = arg(args[0]), arg(args[1])
+        out = total(lambda: [int(L.location_contains_other(a, b))])
+    elif fn == 3:
+        a, b = arg(args[0]), arg(args[1])
+        out = total(lambda: [int(L.get_distance_between_locations(a, b, args[2]))])
+    elif fn == 4:
+        a = arg(args[0])
+        out = total(lambda: [int(L.location_bridges_origin(a))])
+    elif fn == 5:
+        a = arg(args[0])
 
         def go():
-            lower, upper = L.split_origin_bridging_location(mk_loc(a))
+            lower, upper = L.split_origin_bridging_location(a)
             enc = lambda ps: enc_loc([(int(p.start), int(p.end), strand_from_py(p.strand)) for p in ps])
             return enc(lower) + enc(upper)
-        return result(go)
-    if fn == 6:
-        locs, w = args
-        return result(lambda: enc_pyloc(L.connect_locations([mk_loc(l) for l in locs], w)))
-    if fn == 7:
-        a, off, w = args
-        return result(lambda: enc_pyloc(L.offset_location(mk_loc(a), off, wrap_point=w)))
-    if fn == 8:
-        a, d, m, circ = args
-
-        def go():
-            from antismash.common.secmet import Record
-            rec = Record("A" * m)
-            if circ:
-                rec.add_annotation("topology", "circular")
-            return enc_pyloc(rec.extend_location(mk_loc(a), d))
-        return result(go)
-    if fn == 9:
-        (a,) = args
-        return total(lambda: enc_pyloc(L.make_forwards(mk_loc(a))))
-    if fn == 10:
-        (a,) = args
-        return total(lambda: enc_pyloc(L.remove_redundant_exons(mk_loc(a))))
-    if fn == 11:
-        a, s, undo = args
-        return result(lambda: enc_pyloc(L.frameshift_location_by_qualifier(mk_loc(a), s, undo=bool(undo))))
-    if fn == 12:
-        a, b, src = args
+        out = result(go)
+    elif fn == 6:
+        locs = [arg(l) for l in args[0]]
+        out = result(lambda: keep(L.connect_locations(locs, args[1])))
+    elif fn == 7:
+        a = arg(args[0])
+        out = result(lambda: keep(L.offset_location(a, args[1], wrap_point=args[2])))
+    elif fn == 8:
+        a = arg(args[0])
+        out = result(lambda: keep(record_of(args[2], args[3]).extend_location(a, args[1])))
+    elif fn == 9:
+        a = arg(args[0])
+        out = total(lambda: keep(L.make_forwards(a)))
+    elif fn == 10:
+        a = arg(args[0])
+        out = total(lambda: keep(L.remove_redundant_exons(a)))
+    elif fn == 11:
+        a = arg(args[0])
+        out = result(lambda: keep(L.frameshift_location_by_qualifier(a, args[1], undo=bool(args[2]))))
+    elif fn == 12:
+        a, b = arg(args[0]), arg(args[1])
+        src = args[2]
 
         def go():
             from antismash.common.secmet.features import Feature
-            left = Feature(mk_loc(a), feature_type="source" if src == 1 else "misc_feature")
+            left = Feature(a, feature_type="source" if src == 1 else "misc_feature")
             if src > 1:   # the right-hand side as a feature instead of a bare location
-                return [int(left < Feature(mk_loc(b), feature_type="misc_feature"))]
-            return [int(left < mk_loc(b))]
-        return result(go)
-    if fn == 13:
-        a, b = args
+                return [int(left < Feature(b, feature_type="misc_feature"))]
+            return [int(left < b)]
+        out = result(go)
+    elif fn == 13:
+        a, b = arg(args[0]), arg(args[1])
 
         def go():
             from antismash.common.secmet.features import CDSCollection
-            return [int(CDSCollection(mk_loc(a), feature_type="region") < mk_loc(b))]
-        return result(go)
-    raise ValueError(fn)
+            return [int(CDSCollection(a, feature_type="region") < b)]
+        out = result(go)
+    elif fn == 14:
+        def go():
+            loc = L.location_from_string(args[0])
+            res.append(loc)
+            return enc_py_tloc(loc)
+        out = result(go)
+    elif fn == 15:
+        objs.append(mk_tloc(args[0]))
+        out = enc_str(str(objs[0]))
+    elif fn == 16:
+        locs = [arg(l) for l in args[0]]
+        out = result(lambda: keep(L.build_location_from_others(locs)))
+    elif fn == 17:
+        locs = [arg(l) for l in args[0]]
+        rec = record_of(args[1], args[2])
+        if args[3]:
+            out = result(lambda: keep(rec.connect_locations(locs, disable_wrapping=True)))
+        else:
+            out = result(lambda: keep(rec.connect_locations(locs)))
+    elif fn == 18:
+        a, b = arg(args[0]), arg(args[1])
+        out = total(lambda: [int(record_of(args[2], args[3]).get_distance_between_locations(a, b))])
+    elif fn == 19:
+        a = arg(args[0])
+        out = total(lambda: [int(L.location_bridges_origin(a, allow_reversing=True))] + enc_pyloc(a))
+    else:
+        raise ValueError(fn)
+    return out, objs + res
+
+
+def impl(fn, args):
+    return call_objs(fn, args)[0]
 
 
 def encode(fn, args):
@@ -230,18 +335,83 @@ def encode(fn, args):
         return enc_loc(args[0]) + enc_loc(args[1]) + [int(args[2] == 1)]
     if fn == 13:
         return enc_loc(args[0]) + enc_loc(args[1])
+    if fn == 14:
+        return enc_str(args[0])
+    if fn == 15:
+        return enc_tloc_spec(args[0])
+    if fn == 16:
+        out = [len(args[0])]
+        for l in args[0]:
+            out += enc_loc(l)
+        return out
+    if fn == 17:
+        out = [len(args[0])]
+        for l in args[0]:
+            out += enc_loc(l)
+        return out + [args[1], int(args[2]), int(args[3])]
+    if fn == 18:
+        return enc_loc(args[0]) + enc_loc(args[1]) + [args[2], int(args[3])]
+    if fn == 19:
+        return enc_loc(args[0])
     raise ValueError(fn)
 
 
 FN_NAMES = {1: "locations_overlap", 2: "location_contains_other", 3: "get_distance_between_locations",
             4: "location_bridges_origin", 5: "split_origin_bridging_location", 6: "connect_locations",
             7: "offset_location", 8: "Record.extend_location", 9: "make_forwards", 10: "remove_redundant_exons",
-            11: "frameshift_location_by_qualifier", 12: "Feature.__lt__", 13: "CDSCollection.__lt__"}
+            11: "frameshift_location_by_qualifier", 12: "Feature.__lt__", 13: "CDSCollection.__lt__",
+            14: "location_from_string", 15: "str(location)", 16: "build_location_from_others",
+            17: "Record.connect_locations", 18: "Record.get_distance_between_locations",
+            19: "location_bridges_origin(allow_reversing=True)"}
 
 
-def gen_case(rng):
+def gen_tloc_spec(rng, n):
+    """ a location with position kinds (exact, '<', '>'), any strand spelling, operator join/order """
+    parts = gen_loc(rng, n)
+    strands = [rng.choice([1, -1, 0, NONE]) for _ in parts] if rng.random() < 0.3 else [parts[0][2]] * len(parts)
+    spec = [(rng.choice([0, 0, 1]), s, rng.choice([0, 0, 2]), e, st) for (s, e, _st), st in zip(parts, strands)]
+    return (rng.choice(["join", "join", "order"]), spec)
+
+
+def gen_connect_args(rng, n, w):
+    """ 1-5 locations; a quarter of the lists of two or more has a TIE on the lowest start: two single-part
+        locations starting at the lowest coordinate with different ends, somewhere in the list """
+    k = rng.choice([1, 2, 2, 2, 3, 3, 4, 5])
+    locs = [gen_loc(rng, n, w is not None) for _ in range(k)]
+    if k >= 2 and rng.random() < 0.25:
+        s = min(p[0] for l in locs for p in l)
+        locs[0] = [(s, rng.randrange(s + 1, n + 1), rng.choice([1, -1, NONE]))]
+        locs[1] = [(s, rng.randrange(s + 1, n + 1), rng.choice([1, -1, NONE]))]
+        rng.shuffle(locs)
+    return locs
+
+
+def gen_adjacent_list(rng, n):
+    """ arguments of build_location_from_others: 1-4 locations, mostly ascending and often touching """
+    k = rng.choice([1, 2, 2, 3, 4])
+    if rng.random() < 0.3:
+        return [gen_loc(rng, n, False) for _ in range(k)]
+    strand = rng.choice([1, -1, NONE, 0])
+    cuts = sorted(rng.sample(range(0, n + 1), min(n + 1, 3 * k + 1)))
+    locs, pos = [], 0
+    for _ in range(k):
+        m = rng.choice([1, 1, 2])
+        if pos + 2 * m >= len(cuts):
+            break
+        parts = [(cuts[pos + 2 * j], cuts[pos + 2 * j + 1], strand) for j in range(m)]
+        locs.append(parts)
+        pos += 2 * m - 1 if rng.random() < 0.6 else 2 * m   # next location starts where this one ends
+    return locs or [gen_simple(rng, n)]
+
+
+FN_CHOICE = [1, 1, 2, 2, 3, 3, 3, 4, 5, 6, 6, 6, 6, 7, 7, 7, 8, 8, 8, 9, 10, 11, 12, 13,
+             14, 15, 16, 17, 17, 18, 19]
+
+
+def gen_case(rng, fn=None):
     n = gen_n(rng)
-    fn = rng.choice([1, 1, 2, 2, 3, 3, 3, 4, 5, 6, 6, 6, 6, 7, 7, 7, 8, 8, 8, 9, 10, 11, 12, 13])
+    if fn is None:
+        fn = rng.choice(FN_CHOICE)
     if fn == 12:
         a = gen_loc(rng, n)
         b = list(a) if rng.random() < 0.15 else gen_loc(rng, n)
@@ -258,8 +428,7 @@ def gen_case(rng):
         return fn, (gen_loc(rng, n),), n
     if fn == 6:
         w = rng.choice([None, n, n, n])
-        k = rng.choice([1, 2, 2, 2, 3, 3, 4, 5])
-        return fn, ([gen_loc(rng, n, True) for _ in range(k)], w), n
+        return fn, (gen_connect_args(rng, n, w), w), n
     if fn == 7:
         w = rng.choice([None, n, n, n, n])
         a = gen_loc(rng, n, w is not None)
@@ -272,6 +441,25 @@ def gen_case(rng):
         return fn, (a, d, n, circ), n
     if fn in (9, 10):
         return fn, (gen_loc(rng, n),), n
+    if fn == 14:
+        return fn, (str(mk_tloc(gen_tloc_spec(rng, n))),), n
+    if fn == 15:
+        return fn, (gen_tloc_spec(rng, n),), n
+    if fn == 16:
+        return fn, (gen_adjacent_list(rng, n),), n
+    if fn == 17:
+        n = min(n, 1000)
+        circ = rng.random() < 0.75
+        return fn, (gen_connect_args(rng, n, n if circ else None), n, circ, rng.random() < 0.15), n
+    if fn == 18:
+        n = min(n, 1000)
+        circ = rng.random() < 0.75
+        return fn, (gen_loc(rng, n, circ), gen_loc(rng, n, circ), n, circ), n
+    if fn == 19:
+        a = gen_loc(rng, n)
+        if len(a) > 1 and rng.random() < 0.5:   # the alternate annotation order of a reverse-strand location
+            a = sorted([(s, e, -1) for s, e, _ in a])
+        return fn, (a,), n
     a = gen_loc(rng, n)
     return 11, (a, rng.choice([1, 2, 3, 1, 2, 3, 0, 4]), rng.random() < 0.5), n
 
@@ -323,23 +511,53 @@ def text_round_trip(chk, rng, count):
 
 def nontrivial(fn, args):
     locs = [a for a in args if isinstance(a, list) and a and isinstance(a[0], tuple)]
-    if fn == 6:
+    if fn in (6, 16, 17):
         locs = args[0]
-    return any(len(l) > 1 for l in locs) or fn in (6, 7, 8)
+    if fn == 14:
+        return "{" in args[0]
+    if fn == 15:
+        return len(args[0][1]) > 1
+    return any(len(l) > 1 for l in locs) or fn in (6, 7, 8, 17)
 
 
 RULE = ("random structured locations (simple / multi-exon / origin-spanning, strands +,-,0,None) on records of "
-        "length 2..60 (and a few large), for each public function of secmet.locations, Record.extend_location, "
-        "Feature.__lt__ and CDSCollection.__lt__ (model vs implementation), the decidable set-of-bases specification "
-        "evaluated on every implementation output of overlap/contains/distance/connect/offset/extend, every "
-        "CDSCollection.__lt__ pair also asked the other way round (asymmetry), the regression corpus of the repaired "
-        "findings first, and a text round-trip oracle; non-trivial = a compound location is involved or the function is connect/offset/extend; "
-        "distinct by flat encoding")
+        "length 2..60 (and a few large), for each public function of secmet.locations (incl. location_from_string, str(), "
+        "build_location_from_others, location_bridges_origin with allow_reversing), Record.extend_location / connect_locations / "
+        "get_distance_between_locations, Feature.__lt__ and CDSCollection.__lt__ (model vs implementation), the decidable "
+        "set-of-bases specification evaluated on every implementation output of overlap/contains/distance/connect/offset/extend, "
+        "every CDSCollection.__lt__ pair also asked the other way round (asymmetry), every connect argument list of two or more "
+        "(a quarter with a tie on the lowest start) run again in permuted orders and the results compared (specification 116), "
+        "exhaustively every multiset of two or three single-part forward locations on rings of length 2..5 (quick) / 2..8 (thorough) as "
+        "connect cases in all argument orders, the history family (call, in-place mutation of the returned and of the argument objects by the mutators of the code "
+        "base, the same call again on freshly built equal arguments, 40% of them built from their text; evaluated by Gallina "
+        "function 300 and compared at every position; arguments compared before/after every call), the regression corpus of "
+        "the repaired findings first, and a text round-trip oracle; non-trivial = a compound location is involved or the "
+        "function is connect/offset/extend; distinct by flat encoding")
 
 
 SPEC_OFFSET = 100
-SPEC_FNS = (1, 2, 3, 6, 7, 8)
+SPEC_FNS = (1, 2, 3, 6, 7, 8, 17, 18)
+
+
+def spec_case(flat, out):
+    """ the specification case of a model/implementation case: function id + 100, payload ++ implementation output;
+        the Record helpers are judged by the specification of the function they wrap (wrap point = record length
+        when circular) """
+    args = ARGS_OF.get(tuple(flat))
+    if flat[1] == 17:
+        locs, m, circ, off = args
+        return [PROP, 106] + encode(6, (locs, m if circ and not off else None)) + out
+    if flat[1] == 18:
+        a, b, m, circ = args
+        return [PROP, 103] + encode(3, (a, b, m if circ else None)) + out
+    return [flat[0], flat[1] + SPEC_OFFSET] + flat[2:] + out
+
+
 CLAUSES = {
+    17: {1: "connect raised on well-formed inputs", 2: "result is not a well-formed span", 3: "on a line the result is not the exact hull",
+         4: "result does not cover every input base", 5: "result longer than the linear hull although no input wraps",
+         6: "an arc shorter than half the record covers all inputs but the result is longer than it"},
+    18: {1: "distance = 0 when sharing a base, else the minimum over part pairs of the bases between (shorter way round on a ring)"},
     1: {1: "overlap <-> the two locations share a base"},
     2: {1: "contains <-> every part of the inner lies inside one part of the outer"},
     3: {1: "distance = 0 when sharing a base, else the minimum over part pairs of the bases between (shorter way round on a ring)"},
@@ -383,6 +601,20 @@ CORPUS = [
     (13, ([(249, 300, 1), (0, 109, 1)], [(0, 300, 1)]), 300),
     (13, ([(0, 10, -1)], [(0, 10, 1)]), 10),
 ]
+
+
+def small_ring_connect_cases(max_n):
+    """ EXHAUSTIVE: every multiset of two or three single-part forward locations on every ring of length 2..max_n,
+        as connect_locations cases (the order family then runs each of them in all argument orders and connects the
+        result again): all ties on starts and ends, all gaps around half the record """
+    import itertools
+    out = []
+    for n in range(2, max_n + 1):
+        simple = [[(s, e, 1)] for s in range(n) for e in range(s + 1, n + 1)]
+        for k in (2, 3):
+            for combo in itertools.combinations_with_replacement(simple, k):
+                out.append((6, (list(combo), n), n))
+    return out
 
 
 def known_classes():
@@ -453,7 +685,7 @@ def spec_search(chk, cases, impl_outs, model_outs):
     """ failing-input search: the decidable set-of-bases specification (Gallina, function id + 100) is
         evaluated on the implementation's output of EVERY case of the six specified operations """
     idx = [i for i, c in enumerate(cases) if c[1] in SPEC_FNS]
-    spec_cases = [[cases[i][0], cases[i][1] + SPEC_OFFSET] + cases[i][2:] + impl_outs[i] for i in idx]
+    spec_cases = [spec_case(cases[i], impl_outs[i]) for i in idx]
     verdicts = common.run_driver(spec_cases)
     failing = []
     for i, verdict in zip(idx, verdicts):
@@ -488,13 +720,423 @@ def spec_search(chk, cases, impl_outs, model_outs):
                        "cases_violating_this_clause": sum(1 for _s, j, v in failing if (cases[j][1], v[1]) == key)})
 
 
+ORDER_INDEP_FN = 116
+
+
+def permutations_of(rng, k):
+    """ argument orders tried: all for up to three arguments, otherwise reversal, a rotation and four shuffles """
+    import itertools
+    ident = tuple(range(k))
+    if k <= 3:
+        return list(itertools.permutations(ident))
+    perms = [ident, tuple(reversed(ident)), ident[1:] + ident[:1]]
+    for _ in range(4):
+        perms.append(tuple(rng.sample(ident, k)))
+    return list(dict.fromkeys(perms))
+
+
+def out_parts(out):
+    """ the location in an encoded result 0 :: n :: parts, as a list of (start, end, strand) """
+    return [tuple(out[2 + 3 * j:5 + 3 * j]) for j in range(out[1])]
+
+
+def order_independence(chk, rng, cases, impl_outs):
+    """ the clauses "results do not depend on argument order or on applying the operation twice", decided on the
+        implementation's own outputs by the Gallina specification 116 (all results equal):
+        - every connect_locations / Record.connect_locations case with two or more arguments is run again with its
+          argument list permuted;
+        - every successful connect result is connected once more, alone (same wrap point): the same span;
+        - overlap and the distances (function and Record helper) are asked with the two arguments exchanged """
+    spec_cases, tried, idx = [], [], []
+    for i, case in enumerate(cases):
+        fn = case[1]
+        if fn not in (1, 3, 6, 17, 18):
+            continue
+        args = ARGS_OF[tuple(case)]
+        variants = []    # (clause, description, arguments, implementation result)
+        if fn in (6, 17):
+            locs = args[0]
+            wrap = args[1] if fn == 6 else (args[1] if args[2] and not args[3] else None)
+            prefix = encode(6, (locs, wrap))
+            if len(locs) >= 2:
+                for p in permutations_of(rng, len(locs)):
+                    ident = p == tuple(range(len(locs)))
+                    order = [locs[j] for j in p]
+                    variants.append(("order", list(p), order,
+                                     impl_outs[i] if ident else impl(fn, (order,) + tuple(args[1:]))))
+                if len({p[0] for l in locs for p in l if len(l) == 1}) < len([l for l in locs if len(l) == 1]):
+                    chk.count("order_cases_with_equal_starts")
+            if impl_outs[i][0] == 0:
+                again = [out_parts(impl_outs[i])]
+                variants.append(("twice", "the result", locs, impl_outs[i]))
+                variants.append(("twice", "the result connected again", again, impl(fn, (again,) + tuple(args[1:]))))
+        else:
+            prefix = encode(6, ([args[0], args[1]], None))
+            variants.append(("order", [0, 1], [args[0], args[1]], impl_outs[i]))
+            variants.append(("order", [1, 0], [args[1], args[0]], impl(fn, (args[1], args[0]) + tuple(args[2:]))))
+        for clause in ("order", "twice"):
+            group = [v for v in variants if v[0] == clause]
+            if len(group) < 2:
+                continue
+            flat = [PROP, ORDER_INDEP_FN] + prefix + [len(group)]
+            for _c, _d, _a, out in group:
+                flat += [len(out)] + out
+            spec_cases.append(flat)
+            tried.append((clause, group))
+            idx.append(i)
+            chk.evaluations += len(group) - 1
+    failing = []
+    for k, (i, verdict) in enumerate(zip(idx, common.run_driver(spec_cases))):
+        clause = tried[k][0]
+        chk.count({1: f"{clause}_independent_ok", 0: f"{clause}_dependent", 2: "order_spec_not_applicable"}.get(verdict[0], "order_indep_undecoded"))
+        if verdict[0] == 0:
+            failing.append((clause, len(cases[i]), sum(abs(x) for x in cases[i]), i, k))
+        elif verdict[0] not in (1, 2):
+            chk.violation("broken-correspondence", "specification 116 could not decode a case",
+                          {"theorem_or_correspondence": "spec decoding", "flat": spec_cases[k]})
+            return
+    chk.extra["argument_lists_permuted_or_exchanged"] = sum(1 for c, _g in tried if c == "order")
+    chk.extra["connect_results_connected_again"] = sum(1 for c, _g in tried if c == "twice")
+    chk.extra["argument_order_dependent"] = sum(1 for f in failing if f[0] == "order")
+    chk.extra["not_idempotent"] = sum(1 for f in failing if f[0] == "twice")
+    for clause, text in (("order", "the result depends on the order of the arguments"),
+                         ("twice", "connecting the result again gives a different span (not idempotent)")):
+        mine = [f for f in failing if f[0] == clause]
+        if not mine:
+            continue
+        _c, _size, _weight, i, k = min(mine)
+        group = tried[k][1]
+        chk.violation("counterexample", f"{FN_NAMES[cases[i][1]]}: {text}",
+                      {"theorem_or_correspondence": "C04 specification 116 (the results for permuted / exchanged arguments, and for "
+                                                    "the operation applied twice, are equal; C04_spec_order_independent_sound)",
+                       "function": cases[i][1], "flat": spec_cases[k], "input": describe(cases[i]),
+                       "argument_orders_and_implementation_results": [
+                           {"order": d, "locations": a, "result": o} for _c, d, a, o in group],
+                       "cases_violating": len(mine)})
+
+
+# ---------------------------------------------------------------------------------------------- histories
+HISTORY_FN = 300
+MUT_NAMES = {1: "parts.reverse()", 2: "location.strand = x", 3: "parts.sort(key=start)",
+             4: "location_bridges_origin(location, allow_reversing=True)", 5: "parts[0].strand = x",
+             6: "passed as an argument to function x"}
+PASS_FNS = [1, 2, 3, 4, 5, 6, 7, 8, 9, 10, 11, 12, 13, 15, 16, 17, 18, 20, 21]
+FN_NAMES.update({20: "ensure_valid_locations (on a SeqFeature holding the location)",
+                 21: "Feature(location) and its location-based methods"})
+
+
+def object_ids(obj):
+    return {id(obj)} | {id(p) for p in obj.parts}
+
+
+def pass_to(fn, obj, n):
+    """ the object is used as an argument of function fn (with an equal, separately built companion where a second
+        location is needed); exceptions are of no interest here, only what happens to the object """
+    from antismash.common.secmet import locations as L
+    other = mk_loc([(int(p.start), int(p.end), strand_from_py(p.strand)) for p in obj.parts])
+    m = max(n, int(obj.end))
+    calls = {
+        1: lambda: (L.locations_overlap(obj, other), L.locations_overlap(other, obj)),
+        2: lambda: (L.location_contains_other(obj, other), L.location_contains_other(other, obj)),
+        3: lambda: (L.get_distance_between_locations(obj, other, m), L.get_distance_between_locations(other, obj)),
+        4: lambda: L.location_bridges_origin(obj),
+        5: lambda: L.split_origin_bridging_location(obj),
+        6: lambda: (L.connect_locations([obj], m), L.connect_locations([obj, other], m), L.connect_locations([other, obj])),
+        7: lambda: (L.offset_location(obj, 0), L.offset_location(obj, 1, wrap_point=m), L.offset_location(obj, m - 1, wrap_point=m)),
+        8: lambda: (record_of(min(m, 2000), True).extend_location(obj, 2), record_of(min(m, 2000), False).extend_location(obj, m)),
+        9: lambda: L.make_forwards(obj),
+        10: lambda: L.remove_redundant_exons(obj),
+        11: lambda: (L.frameshift_location_by_qualifier(obj, 2), L.frameshift_location_by_qualifier(obj, 1)),
+        12: lambda: _feature_lt(obj, other),
+        13: lambda: _collection_lt(obj, other),
+        15: lambda: (str(obj), repr(obj), len(obj), obj.clone()),
+        16: lambda: (L.build_location_from_others([obj]), L.build_location_from_others([obj, other])),
+        17: lambda: (record_of(min(m, 2000), True).connect_locations([obj, other]), record_of(min(m, 2000), True).connect_locations([obj])),
+        18: lambda: record_of(min(m, 2000), True).get_distance_between_locations(obj, other),
+        20: lambda: _ensure_valid(obj, m),
+        21: lambda: _feature_methods(obj, other),
+    }
+    try:
+        call_with_timeout(calls[fn], 10)
+    except Exception:  # pylint: disable=broad-except
+        pass
+
+
+def _feature_lt(a, b):
+    from antismash.common.secmet.features import Feature
+    return Feature(a, feature_type="misc_feature") < Feature(b, feature_type="misc_feature")
+
+
+def _ensure_valid(obj, m):
+    from Bio.SeqFeature import SeqFeature
+    from antismash.common.secmet.locations import ensure_valid_locations
+    for circular in (False, True):
+        try:
+            ensure_valid_locations([SeqFeature(obj, type="CDS"), SeqFeature(obj, type="gene")], circular, m)
+        except ValueError:
+            pass
+
+
+def _feature_methods(obj, other):
+    from antismash.common.secmet.features import Feature
+    feature = Feature(obj, feature_type="misc_feature")
+    second = Feature(other, feature_type="misc_feature")
+    feature.location = obj
+    results = [feature.start, feature.end, feature.strand, feature.overlaps_with(second), feature.is_contained_by(second),
+               feature.crosses_origin(), feature.to_biopython()]
+    try:
+        results.append(feature.get_sub_location_from_protein_coordinates(0, 1))
+    except ValueError:
+        pass
+    return results
+
+
+def _collection_lt(a, b):
+    from antismash.common.secmet.features import CDSCollection
+    return CDSCollection(a, feature_type="region") < b
+
+
+def mutate(kind, x, obj, n):
+    """ one of the in-place mutators of the code base applied to a live object; returns the encoded output of the
+        Gallina `mutate` (the object afterwards, preceded by the answer for kind 4) """
+    from antismash.common.secmet import locations as L
+    if kind == 1:
+        obj.parts.reverse()
+    elif kind == 2:
+        obj.strand = strand_to_py(x)
+    elif kind == 3:
+        obj.parts.sort(key=lambda part: part.start)
+    elif kind == 4:
+        return [int(L.location_bridges_origin(obj, allow_reversing=True))] + enc_pyloc(obj)
+    elif kind == 5:
+        obj.parts[0].strand = strand_to_py(x)
+    elif kind == 6:
+        pass_to(x, obj, n)
+    return enc_pyloc(obj)
+
+
+def arg_locs(fn, args):
+    """ the argument locations of a call, in the order call_objs builds them """
+    if fn in (1, 2, 3, 12, 13, 18):
+        return [args[0], args[1]]
+    if fn in (6, 16, 17):
+        return list(args[0])
+    if fn in (14, 15):
+        return []
+    return [args[0]]
+
+
+def run_one_history(rng, fn, args, n, via_text, script=None):
+    """ call -> in-place mutation of the returned object and of the argument objects -> the same call again on
+        freshly built equal arguments (-> mutation -> a third time, sometimes).  Returns the operations (flat, for
+        Gallina function 300), the implementation's output per operation, a readable call sequence, and the
+        violations that need no model (arguments changed by the call; arguments not read back from their text) """
+    ops, outs, steps, direct = [], [], [], []
+    built = []
+
+    def build(parts):
+        obj = mk_loc_via_text(parts) if via_text else mk_loc(parts)
+        built.append(enc_pyloc(obj))
+        if built[-1] != enc_loc(parts):
+            # decided without any model: the text of a location does not read back to that location
+            direct.append(("location_from_string(str(location)) is not that location once objects of earlier calls were changed in place"
+                           if ops else "location_from_string(str(location)) is not that location (at the first operation of a history: "
+                           "always, or prepared by an earlier history of this run on the same text)",
+                           {"op": len(ops), "location": parts, "text": str(mk_loc(parts)), "read_back": built[-1]}))
+        return obj
+
+    heap = []
+    touched = set()
+    payload = encode(fn, args)
+    if script is not None:   # replay of recorded operations: [[0, fn, ...] | [1, kind, addr, x], ...]
+        rounds = sum(1 for op in script if op[0] == 0)
+        planned, cur = [], None
+        for op in script:
+            if op[0] == 0:
+                cur = []
+                planned.append(cur)
+            else:
+                cur.append(op)
+    else:
+        rounds = 3 if rng.random() < 0.2 else 2
+    for rnd in range(rounds):
+        del built[:]
+        out, objs = call_objs(fn, args, build)
+        ops.append([0, fn, len(payload)] + payload)
+        outs.append(out)
+        steps.append({"op": len(ops) - 1, "call": FN_NAMES[fn], "arguments": args,
+                      "arguments_built_by": "location_from_string(str(location))" if via_text else "FeatureLocation/CompoundLocation",
+                      "implementation": out})
+        # the arguments after the call: as they were built (function 19 reorders its argument by design: modelled)
+        if fn != 19:
+            for pos, (before, obj) in enumerate(zip(list(built), objs)):
+                if enc_pyloc(obj) != before:
+                    direct.append(("the call changed its argument",
+                                   {"op": len(ops) - 1, "argument": pos, "argument_before_the_call": before,
+                                    "argument_after_the_call": enc_pyloc(obj)}))
+        base = len(heap)
+        heap.extend(objs)
+        # informational: the returned location is one of the arguments / shares part objects with one (the model
+        # keeps objects apart, which is why such objects are mutated only once, see `touched`)
+        nargs = len(arg_locs(fn, args))
+        if rnd == 0 and fn not in (14, 15, 19) and len(objs) > nargs:
+            if any(objs[-1] is a for a in objs[:nargs]):
+                steps[-1]["result_is_an_argument"] = True
+            elif any(object_ids(objs[-1]) & object_ids(a) for a in objs[:nargs]):
+                steps[-1]["result_shares_parts_with_an_argument"] = True
+        if rnd == rounds - 1:
+            break
+        # in-place mutation of the objects of this call (result last in `objs`, so it comes first here)
+        todo = []
+        if script is not None:
+            todo = [(op[1], op[2], op[3]) for op in planned[rnd]]
+        else:
+            order = list(range(base, len(heap)))
+            order.reverse()
+            budget = rng.choice([1, 2, 2, 3])
+            for addr in order:
+                if budget == 0:
+                    break
+                if rng.random() < 0.25:
+                    continue
+                kind = rng.choice([1, 2, 3, 4, 4, 5, 6, 6])
+                x = rng.choice([1, -1, 0, NONE]) if kind in (2, 5) else rng.choice(PASS_FNS) if kind == 6 else 0
+                todo.append((kind, addr, x))
+                budget -= 1
+        for kind, addr, x in todo:
+            if addr >= len(heap):
+                continue
+            obj = heap[addr]
+            if script is None and object_ids(obj) & touched:   # shares a part with an object already changed: the
+                continue                                        # model keeps objects apart, so leave it alone
+            touched |= object_ids(obj)
+            try:
+                out = call_with_timeout(lambda: mutate(kind, x, obj, n), 20)   # pylint: disable=cell-var-from-loop
+            except Exception as exc:  # pylint: disable=broad-except
+                out = [-1, err_code(exc)]
+            touched |= object_ids(obj)
+            ops.append([1, kind, addr, x])
+            outs.append(out)
+            steps.append({"op": len(ops) - 1, "mutate_object": addr, "how": MUT_NAMES[kind], "x": x, "object_afterwards": out})
+    return ops, outs, steps, direct
+
+
+def decode_outs(flat):
+    """ eOuts: count, then each output length-prefixed """
+    outs, pos = [], 1
+    for _ in range(flat[0]):
+        size = flat[pos]
+        outs.append(flat[pos + 1:pos + 1 + size])
+        pos += 1 + size
+    return outs
+
+
+def history_search(chk, rng, count):
+    """ history / aliasing family: every function the check drives is called, the objects of the call are changed
+        in place by the mutators of the code base, and the same call is made again on freshly built equal
+        arguments.  The whole history is evaluated by Gallina function 300 (run_history; theorem
+        C04_history_independent: every call's output is the value of that call alone), and the implementation must
+        give that value at every position. """
+    fns = sorted(set(FN_CHOICE))
+    hist = []
+    for k in range(count):
+        fn = fns[k % len(fns)] if k < 4 * len(fns) else rng.choice(FN_CHOICE)
+        fn, args, n = gen_case(rng, fn)
+        via_text = fn not in (14, 15) and rng.random() < 0.4
+        ops, outs, steps, direct = run_one_history(rng, fn, args, n, via_text)
+        hist.append((fn, args, n, via_text, ops, outs, steps, direct))
+        chk.count("history_" + FN_NAMES[fn])
+        for flag in ("result_is_an_argument", "result_shares_parts_with_an_argument"):
+            if steps[0].get(flag):
+                chk.count(f"aliasing_{flag}_{FN_NAMES[fn]}")
+        chk.evaluations += len(ops)
+    flats = [[PROP, HISTORY_FN, len(h[4])] + [x for op in h[4] for x in op] for h in hist]
+    models = common.run_driver(flats)
+    chk.extra["histories"] = len(hist)
+    chk.extra["history_operations"] = sum(len(h[4]) for h in hist)
+    chk.extra["history_mutations"] = sum(1 for h in hist for op in h[4] if op[0] == 1)
+    chk.extra["histories_with_arguments_built_from_text"] = sum(1 for h in hist if h[3])
+    found = []     # (rank, size, kind, what, replay)
+    for (fn, args, n, via_text, ops, outs, steps, direct), flat, model in zip(hist, flats, models):
+        if model[:1] == [-999] or model[0] != len(ops):
+            chk.violation("broken-correspondence", "history could not be decoded by function 300",
+                          {"theorem_or_correspondence": "history decoding", "flat": flat})
+            return
+        mouts = decode_outs(model)
+        for step, mout in zip(steps, mouts):
+            step["model"] = mout
+        base = {"function": fn, "function_name": FN_NAMES[fn], "flat": flat, "record_length": n, "call_sequence": steps,
+                "history": {"fn": fn, "args": args, "record_length": n, "arguments_built_from_text": via_text, "ops": ops},
+                "replay_note": "operations in order; objects are numbered as they are created: the argument "
+                               "locations of a call in order, then its returned location; --replay runs the "
+                               "operations again on the implementation and on Gallina function 300"}
+        # self-contained: the first call of this history behaves as the model says (otherwise an earlier history
+        # of this run, working on the same text, prepared the failure and this history alone does not replay it)
+        clean_start = outs[0] == mouts[0] and not any(info["op"] == 0 for _w, info in direct)
+        for what, info in direct:
+            chk.count("history_argument_changed" if what.startswith("the call") else "history_text_not_read_back")
+            rank = 0 if clean_start and info["op"] > 0 else 2
+            found.append((rank, len(flat), "counterexample", what,
+                          dict(base, theorem_or_correspondence="C04_history_call_frame (a call leaves its arguments as they are)"
+                               if what.startswith("the call") else "C04_text_history (the text of a location reads back to it in "
+                               "every history); decided on the implementation's output without the model", detail=info)))
+        agreed_calls = set()
+        for k, (op, out, mout) in enumerate(zip(ops, outs, mouts)):
+            if op[0] == 0:
+                if out == mout:
+                    agreed_calls.add(tuple(op))
+                    chk.count("history_call_ok")
+                    continue
+                chk.count("history_call_differs")
+                if tuple(op) in agreed_calls or any(tuple(o) == tuple(op) and outs[j] != out for j, o in enumerate(ops[:k])):
+                    found.append((1 if clean_start else 2, len(flat), "counterexample",
+                                  "the result depends on earlier calls (the same call on freshly built equal "
+                                  "arguments gave a different result after objects of an earlier call were changed in place)",
+                                  dict(base, theorem_or_correspondence="C04_history_independent / C04_history_same_call: the value of a "
+                                       "call does not depend on the history", failing_op=k, implementation=out, model=mout)))
+                else:
+                    found.append((3, len(flat), "broken-correspondence",
+                                  "history: a call differs from the model already the first time it is made",
+                                  dict(base, theorem_or_correspondence="model vs implementation (history family)",
+                                       failing_op=k, implementation=out, model=mout)))
+            else:
+                if out == mout:
+                    chk.count("history_mutation_ok")
+                    continue
+                chk.count("history_mutation_differs")
+                if op[1] == 6:
+                    found.append((1 if clean_start else 2, len(flat), "counterexample",
+                                  "a function modified the location passed to it "
+                                  f"(first seen: {FN_NAMES.get(op[3], op[3])})",
+                                  dict(base, theorem_or_correspondence="C04_history_call_frame: a call leaves its arguments as they are",
+                                       failing_op=k, implementation=out, model=mout)))
+                else:
+                    found.append((3, len(flat), "broken-correspondence",
+                                  "history: an in-place mutator differs from the model",
+                                  dict(base, theorem_or_correspondence="model vs implementation (mutators)",
+                                       failing_op=k, implementation=out, model=mout)))
+    found.sort(key=lambda f: (f[0], f[1]))
+    reported = set()
+    for _rank, _size, kind, what, replay in found:
+        key = (kind, what.split(" (first seen")[0])
+        if key in reported:
+            continue
+        reported.add(key)
+        chk.violation(kind, f"{replay['function_name']}: {what}",
+                      dict(replay, histories_with_this_failure=sum(1 for f in found if (f[2], f[3].split(" (first seen")[0]) == key)))
+    return flats, models
+
+
 def run(chk):
     if not chk.build_and_audit():
         return chk.finish(RULE)
     total = 30000 if chk.tier == "quick" else 600000
+    fixed = CORPUS + small_ring_connect_cases(5 if chk.tier == "quick" else 8)
+    chk.extra["exhaustive_small_ring_connect_lists"] = len(fixed) - len(CORPUS)
+    total += len(fixed)
     cases, impl_outs = [], []
     for k in range(total):
-        fn, args, n = CORPUS[k] if k < len(CORPUS) else gen_case(chk.rng)
+        fn, args, n = fixed[k] if k < len(fixed) else gen_case(chk.rng)
         flat = [PROP, fn] + encode(fn, args)
         ARGS_OF[tuple(flat)] = args
         out = impl(fn, args)
@@ -508,6 +1150,11 @@ def run(chk):
     model_outs = common.correspondence(chk, cases, impl_outs, spec_fn_offset=SPEC_OFFSET, describe=describe)
     spec_search(chk, cases, impl_outs, model_outs)
     order_search(chk, cases, impl_outs)
+    order_independence(chk, chk.rng, cases, impl_outs)
+    hist = history_search(chk, chk.rng, 2500 if chk.tier == "quick" else 40000)
+    if hist:   # a sample of the histories goes through the vm_compute cross-check too
+        cases = cases + hist[0][:400]
+        model_outs = model_outs + hist[1][:400]
     text_round_trip(chk, chk.rng, 3000 if chk.tier == "quick" else 60000)
     chk.crosscheck_vm(cases, model_outs)
     return chk.finish(RULE)
@@ -516,7 +1163,41 @@ def run(chk):
 def replay(chk, path):
     import json
     doc = json.load(open(path))
+    if "history" in doc:
+        hist = doc["history"]
+
+        args = json_args(hist["args"])
+        ops, outs, steps, direct = run_one_history(None, hist["fn"], args, hist["record_length"],
+                                                   hist["arguments_built_from_text"], script=hist["ops"])
+        flat = [PROP, HISTORY_FN, len(ops)] + [x for op in ops for x in op]
+        mouts = decode_outs(common.run_driver([flat])[0])
+        for step, out, mout in zip(steps, outs, mouts):
+            step.pop("arguments", None)
+            print(("differs " if out != mout else "ok      "), json.dumps(step), "model:", mout)
+        for what, info in direct:
+            print("FAILS:", what, json.dumps(info))
+        return 0
+    if "argument_orders_and_implementation_results" in doc:
+        fn = doc["function"]
+        rest = json_args(doc["input"]["arguments (locations as lists of (start, end, strand); strand 2 = None)"])[1:]
+        for entry in doc["argument_orders_and_implementation_results"]:
+            locs = json_args(entry["locations"])
+            if fn in (6, 17):
+                out = impl(fn, (locs,) + tuple(rest))
+            else:
+                out = impl(fn, (locs[0], locs[1]) + tuple(rest[1:]))
+            print(entry["order"], locs, "->", out, "recorded:", entry["result"])
+        return 0
     flat = doc["flat"]
     model = common.run_driver([flat])[0]
     print("model:", model, "recorded implementation:", doc.get("implementation"))
     return 0
+
+
+def json_args(value):
+    """ JSON turned the (start, end, strand) tuples into lists: turn the innermost integer lists back """
+    if isinstance(value, list):
+        if value and all(isinstance(x, int) and not isinstance(x, bool) for x in value):
+            return tuple(value)
+        return [json_args(x) for x in value]
+    return value
